@@ -20,6 +20,10 @@ def poke(m, ctx=None, level=0):
     q(lambda: m.get_template(0))
     q(lambda: m.get_template(nt - 1, unwhiten=False))
     q(lambda: m.get_merge_map())
+    # valid requests with a threshold of their own (they concern that request only)
+    for t_ in range(min(nt, 6)):
+        q(lambda: m.get_template(t_, amplitude_threshold=0.8))
+        q(lambda: m.get_template(t_, amplitude_threshold=0.8, unwhiten=False))
     # refused requests
     q(lambda: m.get_template(nt + 7, amplitude_threshold=0.9))
     q(lambda: m.get_template(0, channel_ids=[nc + 3], amplitude_threshold=0.8))
